@@ -46,6 +46,10 @@ checks = {
  "C18": dict(cat="fault_enumeration", tech="adversarial-execution monitor on serialized ceremony transcripts: honest chains worked from bytes (positive: verify, keys prove/verify), then every single group element of a contribution replaced (neighbour, generator, double, negation, identity, parallel chain, previous contribution), consistent multi-element re-basings, challenge edits, reordered/spliced/dropped/duplicated/k-2 chains, foreign commons and circuits",
    text="bn254+bls12-377 (quick, PRNG subset per vector and class) / all 7 curves with every element enumerated (thorough, ~64k cases): Verify / VerifyPhase1 / VerifyPhase2 must reject every edited transcript except edits leaving the element equal and the documented empty-Challenge tolerance; extracted keys prove and verify and are not interchangeable with single-party keys. Built by a sub-agent; 10/11 mutants caught (1 equivalent).",
    note="per-curve typed code written for bn254 and instantiated by c18/gen.sh; domain sizes 2..64 plus the size-1 case (known finding)", ref="§3 C18"),
+
+ "C06": dict(cat="exploration", tech="invariant-at-a-hook monitor: the PostSolve hook hands every solution object (Solve and inside Prove) to an independent big.Int evaluator of the exported rows/gates; failure side decided by the reference interpreter; Yield-hook delays at level/task boundaries, task counts 1..512, -race in thorough",
+   text="Every solution seen is re-validated (rows/gates satisfied, witness preserved, A,B,C = row evaluations, L,R,O = public rows / gate wires / wire-0 padding); the same monitor also runs inside the C04, C05 and C03 workloads (>60k solutions per quick run there). Own workload: lookup/range-check/hint/commitment systems and random programs over 4 fields, original and restored from bytes; the evidence counts the tasks executed by pool workers (parallel branch really taken).",
+   note="trusted: ceval (uses the systems' exported ToBigInt for coefficients); commitments replaced by a hash for plain Solve calls", ref="§3 C06"),
 }
 pending = {}
 for i in range(1,21):
